@@ -567,8 +567,8 @@ pub fn run(run: &mut Run) {
     let max_ops = run.tier.pick(15usize, 25usize);
     run.prop("api_sequences", n, move || api_strategy(max_ops), test_api);
     run.require_class("api_sequences", "language_switch_on_one_text", (n / 5) as u64);
-    run.require_class("api_sequences", "relint_after_ignore", (n / 5) as u64);
-    run.require_class("api_sequences", "relint_after_import", (n / 5) as u64);
+    run.require_class("api_sequences", "relint_after_ignore", (n / 8) as u64);
+    run.require_class("api_sequences", "relint_after_import", (n / 8) as u64);
     run.require_class("api_sequences", "applied_suggestion", (n / 10) as u64);
 
     // title case through the JS entry point agrees with the library function (C18 owns the laws)
